@@ -129,9 +129,9 @@ std::string op_find(std::string const &_op, line_t const &L)
           {
             auto const r{fcppt::algorithm::find_if_opt(
                 c,
-                [&idx, k](T const &e)
+                [&idx, k](auto &&e)
                 {
-                  e.read();
+                  ask(FWD(e));
                   return idx++ == k;
                 })};
             return r.has_value() ? "J" + std::to_string(r.get_unsafe()->id) : std::string{"N"};
@@ -146,10 +146,11 @@ std::string op_find(std::string const &_op, line_t const &L)
         {
           return fcppt::algorithm::find_by_opt(
               c,
-              [&idx, k](T const &e)
+              [&idx, k](auto &&e)
               {
-                e.read();
-                return idx++ == k ? opt<T>{e.derive(1)} : opt<T>{};
+                auto &&x{take(FWD(e))};
+                x.read();
+                return idx++ == k ? opt<T>{x.derive(1)} : opt<T>{};
               });
         })};
     event_log const log{g_log};
@@ -165,9 +166,9 @@ std::string op_iter(std::string const &_op, line_t const &L)
   for (int const m : L.par)
     need(m == 0 || m == 1);
   std::size_t idx{0};
-  auto const answer{[&idx, &L](T const &e)
+  auto const answer{[&idx, &L](auto &&e)
                     {
-                      e.read();
+                      ask(FWD(e));
                       return L.par.at(idx++) == 1 ? fcppt::algorithm::update_action::keep : fcppt::algorithm::update_action::remove;
                     }};
   if (_op == "algseqitervec")
@@ -175,9 +176,9 @@ std::string op_iter(std::string const &_op, line_t const &L)
     auto v{mk_vec<T>(L.args[0])};
     c05::mark(v);
     // erase shifts the later elements: the answer is looked up by the identity of the element
-    auto const by_id{[&L](T const &e)
+    auto const by_id{[&L](auto &&e)
                      {
-                       e.read();
+                       ask(FWD(e));
                        for (std::size_t i = 0; i < L.n(0); ++i)
                          if (L.args[0].ids[i] == e.id)
                            return L.par.at(i) == 1 ? fcppt::algorithm::update_action::keep : fcppt::algorithm::update_action::remove;
@@ -201,9 +202,9 @@ std::string op_iter(std::string const &_op, line_t const &L)
   c05::mark(m);
   g_log.clear();
   if (_op == "algmapiter")
-    fcppt::algorithm::map_iteration(m, [&answer](auto &kv) { return answer(kv.second); });
+    fcppt::algorithm::map_iteration(m, [&answer](auto &&kv) { return answer(FWD(kv).second); });
   else
-    fcppt::algorithm::map_iteration_second(m, [&answer](T &e) { return answer(e); });
+    fcppt::algorithm::map_iteration_second(m, [&answer](auto &&e) { return answer(FWD(e)); });
   event_log const log{g_log};
   return finish("-", "-", {map_slots(m)}, log);
 }
@@ -371,9 +372,9 @@ std::string op_compact(std::string const &_op, line_t const &L)
     if (_op == "algremoveif")
       tag = fcppt::algorithm::remove_if(
                 v,
-                [&goes](T const &e)
+                [&goes](auto &&e)
                 {
-                  e.read();
+                  ask(FWD(e));
                   return goes(e);
                 })
                 ? "1"
@@ -383,8 +384,10 @@ std::string op_compact(std::string const &_op, line_t const &L)
       need(L.par.empty() || L.par[0] == 1);
       fcppt::algorithm::unique_if(
           v,
-          [&goes](T const &a, T const &b)
+          [&goes](auto &&a, auto &&b)
           {
+            cmp_note<decltype(a)>();
+            cmp_note<decltype(b)>();
             a.read();
             b.read();
             return goes(b);
